@@ -491,6 +491,9 @@ func wsCase(env *wsEnv, rng *rand.Rand, idx int, mode int, withText bool) (sx.V,
 		at := 1 + rng.Intn(len(msgs))
 		txt := wsMsg{1, []byte("not mqtt")}
 		if rng.Intn(2) == 0 {
+			txt = wsMsg{1, []byte{0xc0, 0}} // a text message whose content is a valid PINGREQ must end the connection too
+		}
+		if rng.Intn(2) == 0 {
 			msgs = append(msgs[:at:at], txt) // nothing is sent after the text message
 		} else {
 			msgs = append(msgs[:at:at], append([]wsMsg{txt}, msgs[at:]...)...)
@@ -571,6 +574,53 @@ func wsBigSegment(rng *rand.Rand, pks []wsPkt, size int, whole bool) []wsMsg {
 		rest = rest[n:]
 	}
 	return msgs
+}
+
+// wsAlignedTextCase: a text message that directly follows a binary message whose last byte the
+// broker consumed exactly at the end of a read (the cached message reader then answers io.EOF with 0
+// bytes and wsConn.read moves on to the next message itself): variant 0 an empty binary message,
+// 1 a first message of exactly 2048 bytes (= the read buffer, filled from empty), 2 one whole packet
+// of more than 2 x 2048 bytes as one message (bufio reads its tail into an exactly sized slice),
+// 3 messages of 2048 bytes throughout.  The text message carries a valid MQTT packet (PINGREQ, or a
+// PUBLISH to the observed topic), so a broker that lets it through answers / forwards it.
+func wsAlignedTextCase(env *wsEnv, rng *rand.Rand, idx int, variant int) (sx.V, error) {
+	prefix := fmt.Sprintf("%05x", idx)
+	v := byte(4 + rng.Intn(2))
+	props := []byte{}
+	if v == 5 {
+		props = []byte{0}
+	}
+	topic := wsStr(fmt.Sprintf("c39/%s/a", prefix))
+	publishLen := func(total int) wsPkt { // a QoS 0 PUBLISH of exactly `total` bytes (129 <= total-3 < 16384)
+		n := total - 3 - len(topic) - len(props)
+		pl := make([]byte, n)
+		rng.Read(pl)
+		return wsPkt{b: wsMk(0x30, append(append(append([]byte{}, topic...), props...), pl...)), publish: true}
+	}
+	conn := wsPkt{b: wsConnect(v, "snd"+prefix), replies: 1}
+	ping := wsPkt{b: []byte{0xc0, 0}, replies: 1}
+	var pks []wsPkt
+	var msgs []wsMsg
+	switch variant {
+	case 0:
+		pks = []wsPkt{conn, publishLen(200 + rng.Intn(300)), ping}
+		msgs = []wsMsg{{2, pks[0].b}, {2, append(append([]byte{}, pks[1].b...), pks[2].b...)}, {2, []byte{}}}
+	case 1:
+		pks = []wsPkt{conn, publishLen(2048 - len(conn.b))}
+		msgs = []wsMsg{{2, append(append([]byte{}, pks[0].b...), pks[1].b...)}}
+	case 2:
+		pks = []wsPkt{conn, publishLen(4200 + rng.Intn(3000))}
+		msgs = []wsMsg{{2, pks[0].b}, {2, pks[1].b}}
+	default:
+		pks = []wsPkt{conn, publishLen(2048 - len(conn.b)), publishLen(2048), publishLen(2048)}
+		msgs = []wsMsg{{2, append(append([]byte{}, pks[0].b...), pks[1].b...)}, {2, pks[2].b}, {2, pks[3].b}}
+	}
+	txt := []byte{0xc0, 0}
+	if rng.Intn(2) == 0 {
+		txt = wsMk(0x30, append(append(append([]byte{}, topic...), props...), 'X'))
+	}
+	msgs = append(msgs, wsMsg{1, txt})
+	return wsRunCase(env, rng, prefix, pks, msgs, true, 0)
 }
 
 func wsBigCase(env *wsEnv, rng *rand.Rand, idx int, size int, batched, whole bool, wbuf int) (sx.V, error) {
@@ -750,6 +800,17 @@ func engWs(seed int64, tier string, _ []string, out *sx.Out) {
 	if tier == "thorough" {
 		for i := 0; i < 60; i++ {
 			poisoned(1+rng.Intn(6), rng.Intn(3), []int{0, 1, 3, 4}[rng.Intn(4)], i%2 == 0)
+		}
+	}
+	for variant := 0; variant < 4; variant++ { // text message right after a read that ended on a message boundary
+		for rep := 0; rep < 2; rep++ {
+			idx++
+			c, err := wsAlignedTextCase(env, rng, idx, variant)
+			if err != nil {
+				fmt.Fprintln(os.Stderr, "ws aligned-text case:", err)
+				os.Exit(3)
+			}
+			out.Case(c)
 		}
 	}
 	big(65535, false, false, 65535+1024)
